@@ -16,6 +16,7 @@ import (
 	"os"
 	"sort"
 	"strconv"
+	"sync/atomic"
 	"strings"
 	"time"
 
@@ -467,6 +468,58 @@ func runScheds(mode string, scheds []sched, out string, seed int64, stride int) 
 		}
 		if forced {
 			ev.Forced = 1
+		}
+		enc.Encode(ev)
+	}
+	if mode == "search" {
+		midStream(w, enc, hid)
+	}
+}
+
+// midStream: partitions with TWO replicas (both scripted); the node that is asked first goes away in the middle of its
+// answer, after one item.  The search fails loudly - or, if it is answered from the other replica after all, with exactly
+// the top k of the partitions' items, each once (event "failover": parts = everything the two partitions hold).
+func midStream(w *world, enc *json.Encoder, hid int) {
+	w1, w2 := w.nodes["w1"], w.nodes["w2"]
+	meta := pb.Dataset{Id: uuid.NewV4().Bytes(), Dimension: 3, Space: pb.Space_Euclidean, ReplicationFactor: 2, PartitionCount: 2}
+	for i := 0; i < 2; i++ {
+		meta.Partitions = append(meta.Partitions, &pb.Partition{Id: pid(20 + i).Bytes(), NodeIds: []uint64{w1.Id, w2.Id}})
+	}
+	ds, err := storage.NewVerifDataset(meta, w.db, w.tr, w.conn)
+	if err != nil {
+		panic(err)
+	}
+	for _, n := range []*sim.Node{w1, w2} {
+		for i := 0; i < 2; i++ {
+			n.Items[pid(20+i)] = []sim.Item{{Id: itemId(300 + i), Score: float32(1 + i)}, {Id: itemId(310 + i), Score: float32(11 + i)}}
+		}
+	}
+	storage.VerifGate = nil
+	for round := 0; round < 12; round++ {
+		for _, n := range w.nodes {
+			n.Reset("ok", false)
+		}
+		atomic.StoreUint64(&sim.MidStreamFailed, 0)
+		atomic.StoreInt32(&sim.FailMidStreamOnce, 1)
+		ctx, cancel := context.WithTimeout(context.Background(), 3*time.Second)
+		res, err := ds.Search(ctx, vec(0), 4)
+		cancel()
+		atomic.StoreInt32(&sim.FailMidStreamOnce, 0)
+		failed := atomic.LoadUint64(&sim.MidStreamFailed)
+		o := map[string]string{"w1": "ok", "w2": "ok"}
+		if failed == w1.Id {
+			o["w1"] = "err"
+		} else if failed == w2.Id {
+			o["w2"] = "err"
+		}
+		ev := event{Ev: "failover", Hid: hid + 1 + round, O: o, S: []string{}, K: 4, Parts: map[string][]int{"all": {4, 8, 44, 48}},
+			Ret: "ok", Res: [][]int{}, Asked: 1, Forced: 1}
+		if err != nil {
+			ev.Ret, ev.Err = "err", err.Error()
+		} else {
+			for _, r := range res {
+				ev.Res = append(ev.Res, []int{int(r.Id[14])<<8 | int(r.Id[15]), int(r.Score*4 + 0.5)})
+			}
 		}
 		enc.Encode(ev)
 	}
